@@ -154,10 +154,11 @@ CHECKS = {
         "technique": "static analysis: path-condition tables over MIR (edge dominance), sibling comparison, who-may-call, value-flow",
     },
     "C05": {
-        "text": "Decides four necessary conditions of crash recovery for all paths: the recovery scan in seglog Writer::open advances the write offset on its "
+        "text": "Decides necessary conditions of crash recovery for all paths: the recovery scan in seglog Writer::open advances the write offset on its "
                 "success edge only and returns Err only for real I/O errors (a torn last record ends the scan); the truncation marker is written after the last "
                 "flush and synced; every live index published by Worker::new was hydrated; and hydration must be commit-aware (this last rule reports the three "
-                "hydrate functions as KNOWN-FINDING D5). Does not enumerate crash points.",
+                "hydrate functions as KNOWN-FINDING D5); the writer's fallback lookups see the newest segment first; the reopen scan and the writer pick the live "
+                "segment by the same criterion. Does not enumerate crash points.",
         "note": NOTE,
         "technique": "static analysis: error-flow discipline, dominance on the scan's success edge, ordering (no flush after marker), value-flow of hydrate sources",
     },
